@@ -2,8 +2,8 @@ use crate::{logging, utils, Result};
 cfg_exporter! {
     use crate::exporter;
 }
-use lazy_static::lazy_static;
-use std::sync::{
+use crate::vsync::lazy_static;
+use crate::vsync::{
     atomic::{AtomicU64, Ordering},
     Arc, Mutex, Once,
 };
